@@ -337,6 +337,13 @@ pub struct Server {
 
     /// Prepared statements evicted from the cache that still have to be closed on the server.
     evicted_prepared_statements: Vec<String>,
+
+    /// The COPY FROM STDIN in progress was started by an extended protocol batch.
+    copy_in_extended: bool,
+
+    /// An extended protocol COPY FROM STDIN has ended: the server sends ReadyForQuery
+    /// only in reply to the client's next Sync.
+    awaiting_sync: bool,
 }
 
 impl Server {
@@ -841,6 +848,8 @@ impl Server {
                         },
                         registering_prepared_statement: VecDeque::new(),
                         evicted_prepared_statements: Vec::new(),
+                        copy_in_extended: false,
+                        awaiting_sync: false,
                     };
 
                     return Ok(server);
@@ -970,14 +979,13 @@ impl Server {
 
                     // There is no more data available from the server.
                     self.data_available = false;
+                    self.awaiting_sync = false;
                     break;
                 }
 
                 // ErrorResponse
                 'E' => {
-                    if self.in_copy_mode {
-                        self.in_copy_mode = false;
-                    }
+                    let end_of_reply = self.end_copy();
 
                     // Remove the prepared statement from the cache, it has a syntax error or something else bad happened.
                     if let Some(prepared_stmt_name) =
@@ -1009,13 +1017,15 @@ impl Server {
                             self.cleanup_state.needs_cleanup_prepare = true;
                         }
                     }
+
+                    if end_of_reply {
+                        break;
+                    }
                 }
 
                 // CommandComplete
                 'C' => {
-                    if self.in_copy_mode {
-                        self.in_copy_mode = false;
-                    }
+                    let end_of_reply = self.end_copy();
 
                     match message.read_string() {
                         Ok(command) => {
@@ -1045,6 +1055,10 @@ impl Server {
                         Err(err) => {
                             warn!("Encountered an error while parsing CommandTag {}", err);
                         }
+                    }
+
+                    if end_of_reply {
+                        break;
                     }
                 }
 
@@ -1281,6 +1295,34 @@ impl Server {
     /// Currently copying data from client to server or vice-versa.
     pub fn in_copy_mode(&self) -> bool {
         self.in_copy_mode
+    }
+
+    /// The COPY FROM STDIN that just started came from an extended protocol batch. The server
+    /// ignored the Sync of that batch: when the COPY ends it sends CommandComplete (or an
+    /// ErrorResponse) and nothing else until the client sends another Sync.
+    pub fn copy_in_started_by_extended_protocol(&mut self) {
+        self.copy_in_extended = true;
+    }
+
+    /// The server has something pending that only a Sync will complete.
+    pub fn awaiting_sync(&self) -> bool {
+        self.awaiting_sync
+    }
+
+    /// CommandComplete or ErrorResponse: a COPY, if any, is over. Tells if this message is also
+    /// the end of what the server is going to send for now.
+    fn end_copy(&mut self) -> bool {
+        let was_copying = self.in_copy_mode;
+        self.in_copy_mode = false;
+
+        if was_copying && self.copy_in_extended {
+            self.copy_in_extended = false;
+            self.awaiting_sync = true;
+            self.data_available = false;
+            return true;
+        }
+
+        false
     }
 
     /// We don't buffer all of server responses, e.g. COPY OUT produces too much data.
